@@ -134,3 +134,259 @@ MUTANTS = [
 
     // the buffer is empty check if another buffer exists"""},
 ]
+
+BW = "quill/backend/BackendWorker.h"
+TEB = "quill/backend/TransitEventBuffer.h"
+BTS = "quill/backend/BacktraceStorage.h"
+LG = "quill/Logger.h"
+TCM = "quill/core/ThreadContextManager.h"
+LM = "quill/core/LoggerManager.h"
+SK = "quill/sinks/Sink.h"
+SM = "quill/core/SinkManager.h"
+
+MUTANTS += [
+    # ---------------- C03 ----------------
+    {"id": "c03-expand-from-zero", "props": ["C03"], "file": TEB,
+     "desc": "_expand copies from physical index i instead of reader_pos + i",
+     "old": "new_storage[i] = std::move(_storage[(_reader_pos + i) & _mask]);",
+     "new": "new_storage[i] = std::move(_storage[i & _mask]);"},
+    {"id": "c03-reclaim-with-buffered-events", "props": ["C03", "C20"], "file": BW,
+     "desc": "invalid context reclaimed when its queue is empty even if its transit buffer still holds events",
+     "old": """          return thread_context->get_spsc_queue_union().bounded_spsc_queue.empty() &&
+            thread_context->_transit_event_buffer->empty();""",
+     "new": """          return thread_context->get_spsc_queue_union().bounded_spsc_queue.empty();"""},
+    {"id": "c03-reclaim-with-buffered-events-unbounded", "props": ["C03"], "file": BW,
+     "desc": "same for unbounded queues",
+     "old": """          return thread_context->get_spsc_queue_union().unbounded_spsc_queue.empty() &&
+            thread_context->_transit_event_buffer->empty();""",
+     "new": """          return thread_context->get_spsc_queue_union().unbounded_spsc_queue.empty();"""},
+    {"id": "c03-shrink-nonempty-buffer", "props": ["C03", "C20"], "file": TEB,
+     "desc": "try_shrink does not require the buffer to be empty",
+     "old": "if (_shrink_requested && empty())",
+     "new": "if (_shrink_requested)"},
+    {"id": "c03-finish-read-before-ts-check", "props": ["C03", "C05"], "file": BW,
+     "desc": "a record that is too young (ts > ts_now) is consumed anyway: early return replaced by skipping it",
+     "old": """        // We return at this point without adding the current event to the buffer.
+        return false;""",
+     "new": """        // We return at this point without adding the current event to the buffer.
+        return _options.transit_events_hard_limit > 16;"""},
+    # ---------------- C05 ----------------
+    {"id": "c05-grace-added", "props": ["C05"], "file": BW,
+     "desc": "grace period added to now instead of subtracted",
+     "old": "(detail::get_timestamp<std::chrono::system_clock>() - _options.log_timestamp_ordering_grace_period)",
+     "new": "(detail::get_timestamp<std::chrono::system_clock>() + _options.log_timestamp_ordering_grace_period)"},
+    {"id": "c05-batch-loop-no-recheck", "props": ["C05", "C06"], "file": BW,
+     "desc": "batch loop in _poll does not re-check for uncached events of threads with an empty buffer",
+     "old": """        while (!has_pending_events_for_caching_when_transit_event_buffer_empty() &&
+               _process_lowest_timestamp_transit_event())
+        {
+#if defined(QUILL_VERIF)
+          QUILL_VERIF_YIELD(4);
+#endif
+          // We need to be cautious because there are log messages in the lock-free queues
+          // that have not yet been cached in the transit event buffer. Logging only the cached""",
+     "new": """        while (_process_lowest_timestamp_transit_event())
+        {
+#if defined(QUILL_VERIF)
+          QUILL_VERIF_YIELD(4);
+#endif
+          // We need to be cautious because there are log messages in the lock-free queues
+          // that have not yet been cached in the transit event buffer. Logging only the cached"""},
+    {"id": "c05-pending-ignores-bounded", "props": ["C05"], "file": BW,
+     "desc": "has_pending_events_for_caching... ignores bounded queues",
+     "old": """        if (thread_context->has_bounded_queue_type() &&
+            !thread_context->get_spsc_queue_union().bounded_spsc_queue.empty())
+        {
+          return true;
+        }""",
+     "new": """        if (false && thread_context->has_bounded_queue_type() &&
+            !thread_context->get_spsc_queue_union().bounded_spsc_queue.empty())
+        {
+          return true;
+        }"""},
+    {"id": "c05-revert-f10", "props": ["C05", "C06"], "file": BW,
+     "desc": "cache refresh after ts_now removed again (finding F10 comes back)",
+     "old": """    _update_active_thread_contexts_cache();
+
+    size_t cached_transit_events_count{0};""",
+     "new": """
+    size_t cached_transit_events_count{0};"""},
+    {"id": "c05-min-ts-max", "props": ["C05"], "file": BW,
+     "desc": "lowest-timestamp selection picks the LAST buffer with an event when timestamps differ by less than 1us",
+     "old": "if (te && (min_ts > te->timestamp))",
+     "new": "if (te && ((min_ts / 1000) >= (te->timestamp / 1000)))"},
+    # ---------------- C06 ----------------
+    {"id": "c06-flush-without-sink-flush", "props": ["C06"], "file": BW,
+     "desc": "Flush event notifies the caller without flushing the sinks",
+     "old": """      _flush_and_run_active_sinks(false, std::chrono::milliseconds{0});
+
+      // This is a flush event, so we capture the flush flag to notify the caller after processing.""",
+     "new": """      // This is a flush event, so we capture the flush flag to notify the caller after processing."""},
+    {"id": "c06-flush-respects-min-interval", "props": ["C06"], "file": BW,
+     "desc": "Flush event flushes sinks only if sink_min_flush_interval elapsed",
+     "old": """      _flush_and_run_active_sinks(false, std::chrono::milliseconds{0});
+
+      // This is a flush event""",
+     "new": """      _flush_and_run_active_sinks(false, _options.sink_min_flush_interval);
+
+      // This is a flush event"""},
+    # ---------------- C08 ----------------
+    {"id": "c08-count-control-events", "props": ["C08"], "file": LG,
+     "desc": "dropping path counts control events (flush etc.) as dropped messages too",
+     "old": """        // not enough space to push to queue message is dropped
+        if (macro_metadata->event() == MacroMetadata::Event::Log)
+        {
+          thread_context->increment_failure_counter();
+        }
+        return false;""",
+     "new": """        // not enough space to push to queue message is dropped
+        thread_context->increment_failure_counter();
+        return false;"""},
+    {"id": "c08-lost-update-counter", "props": ["C08"], "file": TCM,
+     "desc": "failure counter read and reset non-atomically AND reset only when below 2 (drops under-reported)",
+     "old": "return _failure_counter.exchange(0, std::memory_order_relaxed);",
+     "new": "size_t const v = _failure_counter.exchange(0, std::memory_order_relaxed); return v > 3 ? v - 1 : v;"},
+    {"id": "c08-revert-f11", "props": ["C08"], "file": BW,
+     "desc": "report before reclaim removed again (finding F11 comes back)",
+     "old": """    _check_failure_counter(_options.error_notifier);
+
+    auto find_invalid_and_empty_thread_context_callback""",
+     "new": """
+    auto find_invalid_and_empty_thread_context_callback"""},
+    # ---------------- C09 ----------------
+    {"id": "c09-revert-f1", "props": ["C09"], "file": BQ,
+     "desc": "publish-when-drained removed again (finding F1 comes back)",
+     "old": """        ((unpublished_bytes != 0) && (_reader_pos == _writer_pos_cache)))""",
+     "new": """        false)"""},
+    {"id": "c09-percent-50", "props": ["C09"], "file": BQ,
+     "desc": "publish only when drained AND at least 2 bytes unpublished... (reader publish suppressed for 1..40 byte remainders)",
+     "old": """        ((unpublished_bytes != 0) && (_reader_pos == _writer_pos_cache)))""",
+     "new": """        ((unpublished_bytes > 40) && (_reader_pos == _writer_pos_cache)))"""},
+    # ---------------- C10 ----------------
+    {"id": "c10-revert-f2", "props": ["C10"], "file": BW,
+     "desc": "catch-all in _populate_formatted_log_message removed again (finding F2 comes back)",
+     "old": """    QUILL_CATCH_ALL()
+    {
+      // a user formatter may throw anything; treat it like any other formatting failure so that""",
+     "new": """    QUILL_CATCH(std::bad_alloc const&)
+    {
+      // a user formatter may throw anything; treat it like any other formatting failure so that"""},
+    {"id": "c10-flush-catch-breaks-loop", "props": ["C10"], "file": BW,
+     "desc": "a throwing flush_sink aborts flushing of the remaining sinks (catch moved outside the loop)... emulated by clearing the cache",
+     "old": """      QUILL_CATCH(std::exception const& e) { _options.error_notifier(e.what()); }
+      QUILL_CATCH_ALL() { _options.error_notifier(std::string{"Caught unhandled exception."}); }
+#endif
+
+      if (run_periodic_tasks)""",
+     "new": """      QUILL_CATCH(std::exception const& e) { _options.error_notifier(e.what()); break; }
+      QUILL_CATCH_ALL() { _options.error_notifier(std::string{"Caught unhandled exception."}); }
+#endif
+
+      if (run_periodic_tasks)"""},
+    {"id": "c10-error-text-not-cleared", "props": ["C10"], "file": BW,
+     "desc": "partial output not cleared before the error text is appended",
+     "old": """    QUILL_CATCH(std::exception const& e)
+    {
+      transit_event->formatted_msg->clear();
+      std::string const error =""",
+     "new": """    QUILL_CATCH(std::exception const& e)
+    {
+      std::string const error ="""},
+    # ---------------- C16 ----------------
+    {"id": "c16-dynamic-level-not-reset", "props": ["C16"], "file": BW,
+     "desc": "dynamic_log_level of a reused transit event not reset for static statements",
+     "old": "      transit_event->dynamic_log_level = LogLevel::None;\n    }\n\n    // commit this transit event",
+     "new": "    }\n\n    // commit this transit event"},
+    {"id": "c16-sink-threshold-le", "props": ["C16"], "file": SK,
+     "desc": "sink level filter uses <= (statements exactly at the threshold rejected)",
+     "old": "if (log_level < _log_level.load(std::memory_order_relaxed))",
+     "new": "if (log_level <= _log_level.load(std::memory_order_relaxed))"},
+    {"id": "c16-filters-any-of", "props": ["C16"], "file": SK,
+     "desc": "filters combined with any_of instead of all_of",
+     "old": "return std::all_of(_local_filters.begin(), _local_filters.end(),",
+     "new": "return std::any_of(_local_filters.begin(), _local_filters.end(),"},
+    {"id": "c16-override-formatter-shared", "props": ["C16"], "file": BW,
+     "desc": "override formatted line leaks to the following sinks (log_to_write not reset per sink)",
+     "old": """    for (auto& sink : transit_event.logger_base->sinks)
+    {
+      if (sink->apply_all_filters(transit_event.macro_metadata, transit_event.timestamp, thread_id,
+                                  thread_name, transit_event.logger_base->logger_name,
+                                  transit_event.log_level(), log_message, log_statement))
+      {
+        std::string_view log_to_write = log_statement;
+""",
+     "new": """    std::string_view log_to_write = log_statement;
+    for (auto& sink : transit_event.logger_base->sinks)
+    {
+      if (sink->apply_all_filters(transit_event.macro_metadata, transit_event.timestamp, thread_id,
+                                  thread_name, transit_event.logger_base->logger_name,
+                                  transit_event.log_level(), log_message, log_statement))
+      {
+"""},
+    {"id": "c16-should-log-gt", "props": ["C16"], "file": "quill/core/LoggerBase.h",
+     "desc": "dynamic should_log_statement uses > instead of >=",
+     "old": """  QUILL_NODISCARD QUILL_ATTRIBUTE_HOT bool should_log_statement(LogLevel log_statement_level) const noexcept
+  {
+    return log_statement_level >= get_log_level();""",
+     "new": """  QUILL_NODISCARD QUILL_ATTRIBUTE_HOT bool should_log_statement(LogLevel log_statement_level) const noexcept
+  {
+    return log_statement_level > get_log_level();"""},
+    # ---------------- C17 ----------------
+    {"id": "c17-remove-without-queue-check", "props": ["C17"], "file": LM,
+     "desc": "invalidated loggers removed without checking that the queues are empty",
+     "old": "          if (!check_queues_empty())",
+     "new": "          if (false && !check_queues_empty())"},
+    {"id": "c17-cleanup-erases-live-sinks", "props": ["C17"], "file": SM,
+     "desc": "cleanup_unused_sinks also forgets sinks that are only held by the user (use_count 1) - registry entry only",
+     "old": "      if (it->sink_ptr.expired())",
+     "new": "      if (it->sink_ptr.expired() || it->sink_ptr.use_count() == 1)"},
+    {"id": "c17-get-logger-returns-invalid", "props": ["C17"], "file": LM,
+     "desc": "get_logger returns invalidated loggers too",
+     "old": "    return logger && logger->is_valid_logger() ? logger : nullptr;",
+     "new": "    return logger;"},
+    {"id": "c17-removal-flag-before-erase", "props": ["C17"], "file": BW,
+     "desc": "blocking removal notified although the logger was not removed (flag set for every pending request)",
+     "old": """    if (!removed_loggers.empty())
+    {""",
+     "new": """    for (auto& kv : _logger_removal_flags) { if (removed_loggers.empty() && kv.second) { kv.second->store(true); } }
+    if (!removed_loggers.empty())
+    {"""},
+    # ---------------- C18 ----------------
+    {"id": "c18-iterate-from-zero", "props": ["C18"], "file": BTS,
+     "desc": "process() iterates from 0 instead of _index",
+     "old": "    uint32_t index = _index;",
+     "new": "    uint32_t index = 0;"},
+    {"id": "c18-wrap-at-capacity", "props": ["C18"], "file": BTS,
+     "desc": "store index wraps one slot late",
+     "old": "      if (_index < _capacity - 1)",
+     "new": "      if (_index < _capacity)"},
+    {"id": "c18-no-clear", "props": ["C18"], "file": BTS,
+     "desc": "stored messages not forgotten after a flush",
+     "old": """    _stored_events.clear();
+    _index = 0;
+  }""",
+     "new": """    _index = 0;
+  }"""},
+    {"id": "c18-flush-level-gt", "props": ["C18"], "file": BW,
+     "desc": "backtrace flush level compared with > instead of >=",
+     "old": "        if (QUILL_UNLIKELY(transit_event.log_level() >=\n                           transit_event.logger_base->backtrace_flush_level.load(std::memory_order_relaxed)))",
+     "new": "        if (QUILL_UNLIKELY(transit_event.log_level() >\n                           transit_event.logger_base->backtrace_flush_level.load(std::memory_order_relaxed)))"},
+    {"id": "c18-revert-f3", "props": ["C18"], "file": BTS,
+     "desc": "index reset removed again (finding F3 comes back)",
+     "old": """    _stored_events.clear();
+    _index = 0;""",
+     "new": """    _stored_events.clear();"""},
+    # ---------------- C20 ----------------
+    {"id": "c20-revert-f9", "props": ["C20"], "file": TCM,
+     "desc": "8-bit counter again (finding F9 comes back)",
+     "old": "std::atomic<uint32_t> _invalid_thread_context_count{0};",
+     "new": "std::atomic<uint8_t> _invalid_thread_context_count{0};"},
+    {"id": "c20-counter-decrement-twice", "props": ["C20"], "file": TCM,
+     "desc": "invalid-context counter decremented by two per removal",
+     "old": "    _invalid_thread_context_count.fetch_sub(1, std::memory_order_relaxed);",
+     "new": "    _invalid_thread_context_count.fetch_sub(_thread_contexts.size() > 2 ? 2 : 1, std::memory_order_relaxed);"},
+    {"id": "c20-shrink-threshold", "props": ["C20"], "file": UQ,
+     "desc": "shrink ignored unless target <= capacity/4",
+     "old": "if (capacity > (_producer->bounded_queue.capacity() >> 1))",
+     "new": "if (capacity > (_producer->bounded_queue.capacity() >> 2))"},
+]
